@@ -33,7 +33,12 @@ RULE = (
     "the products present (plus None and 0), context_depth_limit 30 or 4..10; stream recursion: self/mutually recursive "
     "include/render/macro-in-partial families under context_depth_limit 4..8; stream regress: the witnesses of the fixed "
     "carry defects and their neighbours. Non-trivial: the unlimited render reaches a block nested in >=2 repeating "
-    "constructs of length >=2 (recursion: >=3 executions or a ContextDepthError), i.e. the limit decision depends on a product."
+    "constructs of length >=2 (recursion: >=3 executions or a ContextDepthError), i.e. the limit decision depends on a product. "
+    "stream modes (model LoopLimitModes): acyclic random nests with {% break %}/{% continue %} sprinkled over loop bodies, "
+    "if blocks, macro bodies and partials, rendered in STRICT, LAX and WARN mode (WARN: the number of warnings is compared "
+    "with the model's suppressed errors), output parsed leniently with resync markers, plus the stale-loop-stack witnesses; "
+    "oracle: no executed block under a product > N in any mode, no error escapes LAX/WARN, a limit that nothing exceeds "
+    "changes nothing."
 )
 TRUSTED_BASE = [
     "Lean 4.33 kernel; axioms subset of {propext, Classical.choice, Quot.sound}",
@@ -42,17 +47,18 @@ TRUSTED_BASE = [
     "correspondence harness harness/props/c06.py + Driver/C06.lean: every case runs on the real engine and on the model; "
     "compared on (error class, sequence of block executions with their enclosing lengths, max product)",
     "the output-bracket observer: lengths are printed by the engine itself (forloop.length, tablerowloop.length, bound item)",
-    "STRICT mode (default): the first error aborts the render",
+    "STRICT mode (default): the first error aborts the render; LAX/WARN and break/continue are covered by the second model "
+    "LiquidVerif/Model/LoopLimitModes.lean (sentence 1 only), tied by the modes stream",
 ]
 ASSUMPTIONS = [
-    "STRICT error mode; in LAX/WARN mode a suppressed LoopIterationLimitError truncates output by design (C03/C08 govern)",
-    "break/continue, extends/block and inline snippets are not in the model (they neither repeat a block nor change the loop stack/carry); generators do not emit them",
+    "the two-direction theorems (limit_decides, over_limit_raises, limit_only_aborts) are about STRICT mode; in LAX/WARN mode a suppressed LoopIterationLimitError truncates the node (C03/C08 govern) and only the bound (loop_product_bounded_all_modes) and lax_render_completes are proved; 'raises or suppresses' is checked dynamically (modes stream) only",
+    "extends/block and inline snippets are not in the models; generators do not emit them",
     "iterable lengths are what LoopExpression.evaluate returns (C13 governs limit/offset arithmetic; limit:0 is avoided)",
     "loop_iteration_limit None or 0 both mean 'no limit' (falsy test in raise_for_loop_limit), modelled as written",
 ]
 MANIFEST = {
     "technique": "Lean 4 proof (mutual functional induction over the render model with loop stack, carry, copy depth, scope depth and a ghost list of true enclosing lengths) + differential correspondence on generated nests",
-    "text": "Theorems loop_product_bounded (a completed render never executed a block while the product of the true lengths of all enclosing repeating constructs exceeded N), limit_decides (when the unlimited render completes, the limited one completes with the same executions iff every execution's product is <= N, and otherwise raises LoopIterationLimitError), over_limit_raises, limit_only_aborts and ghost_erasure hold for every nest, depth and length (no bound), for the code after the three fix: commits (tablerow / include-with-array / render-for carry their length). The model is tied to the source by exhaustive chain enumeration and random nests of depth <=4, lengths 0..12, limits 1..200, sync and async.",
+    "text": "Theorems loop_product_bounded (a completed render never executed a block while the product of the true lengths of all enclosing repeating constructs exceeded N), limit_decides (when the unlimited render completes, the limited one completes with the same executions iff every execution's product is <= N, and otherwise raises LoopIterationLimitError), over_limit_raises, limit_only_aborts and ghost_erasure hold for every nest, depth and length (no bound), for the code after the fix: commits (tablerow / include-with-array / render-for carry their length; a for loop is pushed after its scope was entered). loop_product_bounded_all_modes extends the bound to LAX/WARN mode and to loops cut short by break/continue (second model LoopLimitModes); lax_render_completes; loop_product_bounded_limit_zero_counterexample names the falsy-zero deviation. The model is tied to the source by exhaustive chain enumeration and random nests of depth <=4, lengths 0..12, limits 1..200, sync and async.",
     "note": "Trusted: Lean kernel (axioms propext/Classical.choice/Quot.sound only), the hand model of the loop-limit mechanism, the correspondence harness and its output-bracket observer. STRICT mode only; break/continue, extends/block, snippets not modelled.",
 }
 
@@ -75,15 +81,23 @@ def _src_expr(n: int, src: str) -> str:
     return f"a{n}"
 
 
-def to_source(nodes) -> str:
+def to_source(nodes, rs=False, top=None) -> str:
+    """rs: emit resync markers (modes stream): `~id;` after a loop / include / render tag, `!;` after every top-level
+    node of the main template, `^;` after every top-level node of a partial — so that output cut short by break,
+    continue or a suppressed error can still be parsed into nested block executions."""
     out = []
     for nd in nodes:
         k = nd[0]
+        if k in ("break", "continue"):
+            out.append("{% " + k + " %}")
+            if top:
+                out.append("!;" if top == "main" else "^;")
+            continue
         if k == "mark":
             out.append(f"M{nd[1]};")
         elif k == "blk":
             _, kind, taken, body = nd
-            inner = to_source(body)
+            inner = to_source(body, rs)
             if kind == "if":
                 out.append("{% if " + ("t" if taken else "f") + " %}" + inner + "{% endif %}")
             elif kind == "unless":
@@ -94,15 +108,15 @@ def to_source(nodes) -> str:
                 out.append("{% capture cap %}" + inner + "{% endcapture %}{{ cap }}")
         elif k == "for":
             _, i, n, src, body, dflt = nd
-            s = "{% for x" + str(i) + " in " + _src_expr(n, src) + " %}[" + str(i) + ",{{ forloop.length }};" + to_source(body) + "]"
+            s = "{% for x" + str(i) + " in " + _src_expr(n, src) + " %}[" + str(i) + ",{{ forloop.length }};" + to_source(body, rs) + "]"
             if dflt:
-                s += "{% else %}" + to_source(dflt)
-            out.append(s + "{% endfor %}")
+                s += "{% else %}" + to_source(dflt, rs)
+            out.append(s + "{% endfor %}" + (f"~{i};" if rs else ""))
         elif k == "tablerow":
             _, i, n, src, cols, body = nd
             c = f" cols: {cols}" if cols else ""
             out.append(
-                "{% tablerow x" + str(i) + " in " + _src_expr(n, src) + c + " %}[" + str(i) + ",{{ tablerowloop.length }};" + to_source(body) + "]{% endtablerow %}"
+                "{% tablerow x" + str(i) + " in " + _src_expr(n, src) + c + " %}[" + str(i) + ",{{ tablerowloop.length }};" + to_source(body, rs) + "]{% endtablerow %}" + (f"~{i};" if rs else "")
             )
         elif k in ("include", "render"):
             _, site, name, mode, n = nd
@@ -116,17 +130,21 @@ def to_source(nodes) -> str:
                 out.append("{% " + k + " '" + name + "' for w as it, site: " + str(site) + " %}")
             else:  # with_scalar
                 out.append("{% " + k + " '" + name + "' with w as it, site: " + str(site) + " %}")
+            if rs:
+                out.append(f"~{site};")
         elif k == "macro":
-            out.append("{% macro " + nd[1] + " %}" + to_source(nd[2]) + "{% endmacro %}")
+            out.append("{% macro " + nd[1] + " %}" + to_source(nd[2], rs) + "{% endmacro %}")
         elif k == "call":
             out.append("{% call " + nd[1] + " %}")
         else:
             raise ValueError(nd)
+        if rs and top:
+            out.append("!;" if top == "main" else "^;")
     return "".join(out)
 
 
-def partial_source(nodes) -> str:
-    return "[{{ site }},{{ it | join: '-' }}{% if it.first %}A{% endif %};" + to_source(nodes) + "]"
+def partial_source(nodes, rs=False) -> str:
+    return "[{{ site }},{{ it | join: '-' }}{% if it.first %}A{% endif %};" + to_source(nodes, rs, "partial" if rs else None) + "]"
 
 
 # ------------------------------------------------------------------------------------------------
@@ -155,6 +173,8 @@ def to_model(nodes):
             out.append(["macro", nd[1], to_model(nd[2])])
         elif k == "call":
             out.append(["call", nd[1]])
+        elif k in ("break", "continue"):
+            out.append([k])
     return out
 
 
@@ -188,7 +208,7 @@ def kinds_of(case) -> dict:
 # ------------------------------------------------------------------------------------------------
 # running the real engine
 
-_TOKEN = re.compile(r"\[(\d*),([^;\[\]]*);|(\])|M(\d+);")
+_TOKEN = re.compile(r"\[(\d*),([^;\[\]]*);|(\])|M(\d+);|~(\d+);|(\^;)|(!;)")
 _DATA = None
 
 
@@ -211,10 +231,16 @@ def make_template(case):
 
     # DictLoader re-parses a partial on every include/render; the caching variant parses it once (same render path)
     loader = DictLoader if case.get("loader") == "dict" else CachingDictLoader
-    env = Env(loader=loader({name: partial_source(body) for name, body in case["templates"]}))
+    rs = bool(case.get("resync"))
+    kw = {}
+    if case.get("mode") in ("lax", "warn"):
+        from liquid import Mode
+
+        kw["tolerance"] = Mode.LAX if case["mode"] == "lax" else Mode.WARN
+    env = Env(loader=loader({name: partial_source(body, rs) for name, body in case["templates"]}), **kw)
     env.add_tag(MacroTag)
     env.add_tag(CallTag)
-    return env, env.from_string(to_source(case["main"]))
+    return env, env.from_string(to_source(case["main"], rs, "main" if rs else None))
 
 
 _LOOP = None
@@ -243,21 +269,45 @@ def render_real(env, tpl, limit, is_async):
         return type(e).__name__, ""
 
 
-def parse_output(text: str, kinds: dict):
-    """Bracket structure of the output -> events [[id, [enclosing lengths]]], structural problems, worst chain."""
+def parse_output(text: str, kinds: dict, lenient: bool = False):
+    """Bracket structure of the output -> events [[id, [enclosing lengths]]], structural problems, worst chain.
+    lenient (modes stream): blocks may be cut short; resync markers and repeated ids close the stale brackets."""
     events = []
     stack = []  # (id, len or None)
     problems = []
     groups = [[]]  # per open bracket: list of (id, len) of child brackets in order
     worst = (0, [])
+
+    def pop_through(ident):
+        if any(i == ident for i, _ in stack):
+            while stack:
+                i, _ = stack.pop()
+                groups.pop()
+                if i == ident and not any(j == ident for j, _ in stack):
+                    break
+
     for m in _TOKEN.finditer(text):
+        if m.group(5) is not None:  # ~id;
+            pop_through(int(m.group(5)))
+            continue
+        if m.group(6):  # ^;  back to the innermost open partial
+            while stack and not kinds.get(stack[-1][0], "").startswith(("include", "render")):
+                stack.pop()
+                groups.pop()
+            continue
+        if m.group(7):  # !;  back to the top level of the main template
+            while stack:
+                stack.pop()
+                groups.pop()
+            continue
         if m.group(3):  # ]
             if not stack:
                 problems.append("unbalanced")
                 break
             stack.pop()
             kids = groups.pop()
-            _check_groups(kids, problems)
+            if not lenient:
+                _check_groups(kids, problems)
             continue
         if m.group(4) is not None:
             i = int(m.group(4))
@@ -267,6 +317,8 @@ def parse_output(text: str, kinds: dict):
                 break
             i = int(m.group(1))
             ln = int(m.group(2)) if m.group(2).isdigit() else None
+            if lenient:
+                pop_through(i)  # a new iteration while the previous one was cut short by `continue`
             groups[-1].append((i, ln))
             stack.append((i, ln))
             groups.append([])
@@ -279,7 +331,7 @@ def parse_output(text: str, kinds: dict):
             worst = (p, [kinds.get(j, "?") for j, l in stack if l is not None])
     if stack and not problems:
         problems.append("unclosed")
-    if not problems:
+    if not problems and not lenient:
         _check_groups(groups[0], problems)
     return events, problems, worst
 
@@ -762,5 +814,149 @@ class RegressStream(NestStream):
         return regress_cases()
 
 
+# ------------------------------------------------------------------------------------------------
+# deepening round: error modes, break / continue (model LoopLimitModes, driver command c06x)
+
+
+def inject_interrupts(rng, nodes, in_loop):
+    """Sprinkle {% break %} / {% continue %} (bare or inside an if block) over a nest, mostly inside loops."""
+    out = []
+    for nd in nodes:
+        k = nd[0]
+        if k == "blk":
+            # a capture block whose body is cut short discards what was written: executions would be unobservable
+            nd = ["blk", "if" if nd[1] == "capture" else nd[1], True if nd[1] == "capture" else nd[2], inject_interrupts(rng, nd[3], in_loop)]
+        elif k == "for":
+            nd = nd[:4] + [inject_interrupts(rng, nd[4], True), inject_interrupts(rng, nd[5], in_loop)]
+        elif k == "tablerow":
+            nd = nd[:5] + [inject_interrupts(rng, nd[5], True)]
+        elif k == "macro":
+            nd = [nd[0], nd[1], inject_interrupts(rng, nd[2], rng.chance(50))]
+        out.append(nd)
+        if rng.chance(14 if in_loop else 3):
+            it = [rng.choice(["break", "continue"])]
+            out.append(it if rng.chance(50) else ["blk", "if", rng.chance(70), [it]])
+    return out
+
+
+def modes_oracle(case, obs, what):
+    if obs["problems"]:
+        return (f"{what}|observer|{obs['problems'][0].split(' ')[0]}", f"output structure: {obs['problems'][:3]}")
+    allowed = KNOWN_ERRORS + ("LiquidSyntaxError",)
+    for run in obs["runs"]:
+        N, res = run["limit"], run["result"]
+        if res != "ok" and res not in allowed:
+            return (f"{what}|unexpected|{res}", f"render raised {res}")
+        if case["mode"] != "strict" and res != "ok" and not (res == "ContextDepthError" and case["depth"] < 4):
+            return (f"{what}|{case['mode']}-raised|{res}", f"{res} escaped a {case['mode']} render")
+        if not N and res == "LoopIterationLimitError":
+            return (f"{what}|raised-without-limit", "LoopIterationLimitError with no limit configured")
+        # sentence 1, every mode: whatever was executed ran under a product <= N
+        if N and run["max_product"] > N:
+            chain = ">".join(run["worst_chain"])
+            return (f"{what}|over|{case['mode']}|{chain}", f"limit {N}: a block ran under a product of {run['max_product']} (enclosing {chain}) in {case['mode']} mode")
+        # the limit must not interfere when nothing the unlimited render executes is nested deeper than N
+        un = obs["unlimited"]
+        if N and un.get("result") == "ok" and un["max_product"] <= N and not run["same_as_unlimited"]:
+            return (f"{what}|spurious|{case['mode']}", f"limit {N} changed a {case['mode']} render whose deepest block runs under product {un['max_product']}")
+    return None
+
+
+class ModesStream(NestStream):
+    """STRICT / LAX / WARN renders of acyclic nests with break and continue; output parsed leniently."""
+
+    name = "modes"
+
+    def cases(self, ctx):
+        rng = ctx.rng_for("modes")
+        out = regress_modes_cases()
+        n = ctx.scale(900, 9000)
+        while len(out) < n:
+            c = gen_random_case(rng, is_async=bool(len(out) % 3 == 0))
+            if node_cost(c) > 6000:
+                continue
+            c["main"] = inject_interrupts(rng, c["main"], False)
+            c["templates"] = [[nm, inject_interrupts(rng, b, rng.chance(30))] for nm, b in c["templates"]]
+            c["mode"] = rng.choice(["strict", "lax", "lax", "warn"])
+            c["resync"] = True
+            out.append(c)
+        return out
+
+    def impl(self, case):
+        import warnings
+
+        from liquid.exceptions import LiquidWarning
+
+        kinds = kinds_of(case)
+        try:
+            env, tpl = make_template(case)
+        except BaseException as e:  # noqa: BLE001
+            if isinstance(e, (KeyboardInterrupt, SystemExit)):
+                raise
+            return {"runs": [], "problems": ["parse-error " + type(e).__name__], "unlimited": {"nontrivial_depth": 0, "max_depth": 0}}
+        runs, problems, depth = [], [], 0
+        with warnings.catch_warnings(record=True):
+            warnings.simplefilter("always")
+            ures, utext = render_real(env, tpl, None, bool(case.get("async")))
+        uevents, _, uworst = parse_output(utext, kinds, lenient=True)
+        for N in case["limits"]:
+            with warnings.catch_warnings(record=True) as ws:
+                warnings.simplefilter("always")
+                res, text = render_real(env, tpl, N, bool(case.get("async")))
+            events, probs, worst = parse_output(text, kinds, lenient=True)
+            problems += probs
+            depth = max(depth, max((sum(1 for l in e[1] if l >= 2) for e in events), default=0))
+            runs.append({"limit": N, "result": res, "n": len(events), "digest": digest(events),
+                         "head": "|".join(f"{i}:" + ",".join(map(str, ls)) for i, ls in events[:8]),
+                         "max_product": worst[0] if res == "ok" else 0, "worst_chain": worst[1],
+                         "suppressed": sum(1 for w in ws if issubclass(w.category, LiquidWarning)) if case["mode"] == "warn" else None,
+                         "same_as_unlimited": res == ures and events == uevents})
+        return {"runs": runs, "problems": problems, "unlimited": {"nontrivial_depth": depth, "max_depth": depth, "result": ures, "max_product": uworst[0]}}
+
+    def line(self, case):
+        return ["c06x", case["mode"] == "strict", case["limits"], case["depth"], [[n, to_model(b)] for n, b in case["templates"]], to_model(case["main"])]
+
+    def compare_view(self, case, obs):
+        return [{"result": r["result"], "n": r["n"], "digest": r["digest"], "head": r["head"], "max_product": r["max_product"], "suppressed": r["suppressed"]} for r in obs["runs"]]
+
+    def canon_model(self, case, mobs):
+        if isinstance(mobs, dict) and "runs" in mobs:
+            return [{"result": r["result"], "n": r["n"], "digest": r["digest"], "head": r["head"], "max_product": r["max"],
+                     "suppressed": len(r["suppressed"]) if case["mode"] == "warn" else None} for r in mobs["runs"]]
+        return mobs
+
+    def oracle(self, case, obs):
+        if "unlimited" not in obs:
+            return None
+        return modes_oracle(case, obs, self.name)
+
+    def nontrivial(self, case, obs):
+        return obs["unlimited"]["nontrivial_depth"] >= 2
+
+    def tags(self, case, obs):
+        t = ["mode:" + case["mode"]]
+        for r in obs["runs"]:
+            t.append("res:" + r["result"])
+            if r.get("suppressed"):
+                t.append("suppressed>0")
+        return t
+
+
+def regress_modes_cases():
+    """The stale-loop-stack witness (fixed on fix2-C06): in LAX/WARN mode a ContextDepthError raised by `extend` inside
+    RenderContext.loop left the ForLoop on the stack, so later loops were over-counted (spurious suppressed
+    LoopIterationLimitError). Depth 6: the third nested for cannot extend the scope."""
+    out = []
+    for mode in ("lax", "warn", "strict"):
+        for a, d, e in ((2, 3, 2), (3, 2, 2), (2, 2, 2), (4, 3, 1)):
+            main = [
+                ["for", 1, a, "range", [["for", 2, 1, "range", [["for", 3, 3, "range", [["mark", 4]], []]], []]], []],
+                ["for", 5, d, "range", [["mark", 6], ["for", 7, e, "range", [["mark", 8]], []]], []],
+            ]
+            out.append({"limits": [a * 3, d * e, d * e + 1, a * d * e], "depth": 6, "async": False, "mode": mode, "resync": True,
+                        "loader": "dict", "templates": [], "main": main})
+    return out
+
+
 def streams(ctx):
-    return [RegressStream(), ChainStream(), RandomStream(), RecursionStream()]
+    return [RegressStream(), ChainStream(), RandomStream(), RecursionStream(), ModesStream()]
